@@ -527,6 +527,14 @@ func checkRemarksLen(remarks string) string {
 }
 
 func extractAddressInfos(pkScript []byte) (scriptClass txscript.ScriptClass, recipient, staking, binding string, reqSigs int, err error) {
+	defer func() {
+		// txscript.ExtractPkScriptAddrs dereferences a nil address when a
+		// multisig script contains a public key it cannot parse
+		if r := recover(); r != nil {
+			scriptClass, recipient, staking, binding, reqSigs = 0, "", "", "", 0
+			err = fmt.Errorf("failed to parse output script: %v", r)
+		}
+	}()
 	scriptClass, addrs, _, reqSigs, err := txscript.ExtractPkScriptAddrs(pkScript, config.ChainParams)
 	if err != nil {
 		return 0, "", "", "", 0, err
